@@ -1018,7 +1018,15 @@ impl<'a> Runtime<'a> {
                 } else {
                     value
                 };
+                let persistent = self.arena;
                 let array = self.get_mutable_array(receiver, span, field)?;
+                // A parameter's array is still on the frame. Growing it there inside a loop
+                // body would put its new storage above the mark the iteration resets to.
+                if !std::ptr::eq(*array.allocator(), persistent) {
+                    let mut rehomed = Vec::with_capacity_in(array.len() + 1, persistent);
+                    rehomed.append(array);
+                    *array = rehomed;
+                }
                 ArrayBuiltin::push(array, value);
                 Ok(Value::Null)
             }
